@@ -157,6 +157,40 @@ def insertion_cases(rng, n):
         out.append({'src': ''.join(parts), 'opts': {'lang': main, 'pack': '*'}, 'multi': True, 'thresh': thresh, 'kind': 'insertion', 'exp': exp})
     return out
 
+def scope_end_cases(rng):
+    """a construct that looks ahead for an optional argument (\\\\, \\item, a macro with trailing optional argument) as the LAST thing inside
+    a language scope, and a bracket behind the scope: the words behind the scope carry the language in force there"""
+    L = {'en-GB': 'english', 'de-DE': 'german', 'ru-RU': 'russian'}
+    out = []
+    for main in L:
+        for other in L:
+            if other == main:
+                continue
+            for form in ['\\foreignlanguage{%s}{%s}', '\\begin{otherlanguage*}{%s}%s\\end{otherlanguage*}', '\\begin{otherlanguage}{%s}%s\\end{otherlanguage}']:
+                for last in ['\\\\', '\\\\ ', '\\\\\n', ' \\\\']:
+                    for gap in [' ', '', '\n']:
+                        for nw in (1, 4):
+                            ws = ['Q' + ''.join(rng.choice('abcdefghijklmnopqrstuvwxyz') for _ in range(4)) for _ in range(nw + 5)]
+                            if len(set(ws)) < len(ws):
+                                continue
+                            inner = ' '.join(ws[:nw]) + last
+                            src = '\\usepackage{babel}\n%s %s%s[%s] %s %s.\n' % (ws[nw], form % (L[other], inner), gap, ws[nw + 1], ws[nw + 2], ws[nw + 3])
+                            exp = {ws[nw]: main, ws[nw + 2]: main, ws[nw + 3]: main}
+                            for x in ws[:nw]:
+                                exp[x] = other
+                            out.append({'src': src, 'opts': {'lang': main, 'pack': '*'}, 'multi': True, 'thresh': 3, 'kind': 'scope-end', 'expect_lang': exp})
+    return out
+def judge_scope_end(c, r):
+    if r['outcome'] != 'ok':
+        return []
+    lab = {}
+    for lang, parts in r['parts']:
+        for (t, p) in parts:
+            for x, _ in semrun.out_words(t):
+                lab.setdefault(x, []).append(lang)
+    return ['word %r labelled %r, expected %r (a look-ahead at the end of a language scope)' % (x, lab.get(x), l)
+            for x, l in c['expect_lang'].items() if lab.get(x) != [l]]
+
 def judge_insertion(c, r):
     if r['outcome'] != 'ok':
         return []
@@ -267,6 +301,16 @@ def run(ctx):
         if f:
             ctx.violation(f[0], src=c['src'], opts=c['opts'], thresh=c['thresh'], multi=True, insertion=c['exp'])
     corr.t2t(ctx, ic, ires, proj=('outcome', 'toks', 'text'), limit=len(ic))
+    sc = scope_end_cases(rng)
+    if ctx.tier != 'thorough':
+        sc = rng.sample(sc, 150)
+    sres = ctx.pmap(t2t.run_case, [{k: v for k, v in c.items() if k != 'expect_lang'} for c in sc])
+    for c, r in zip(sc, sres):
+        ctx.case(c['src']); ctx.count('look_ahead_at_scope_end')
+        f = judge_scope_end(c, r)
+        if f:
+            ctx.violation(f[0], src=c['src'], opts=c['opts'], thresh=c['thresh'], multi=True, expect_lang=c['expect_lang'])
+    corr.t2t(ctx, sc, sres, proj=('outcome', 'toks', 'text'), limit=len(sc))
     rs = [r for r, _ in results]
     corr.t2t(ctx, cases, rs, proj=('outcome', 'toks', 'text'), limit=ctx.scale(900, 20000))
     corr.leaf_corr(ctx, cases, rs, want=('ml',), limit=ctx.scale(400, 5000))
